@@ -1,1 +1,3 @@
 pub mod c01;
+pub mod c37;
+pub mod c40;
